@@ -183,6 +183,8 @@ impl BlockReader {
         final(self).coherent(), final(self).same_file(old(self)),
         // C12: the block read for offset `bo` is exactly that block of the file
         r is Found ==> r->Found_0@ == fblock(old(self).file_handle.bytes(), old(self).blocksz as int, blockoffset as int),
+        // a block at or before the last one of a non-empty file is never answered with Done
+        old(self).filesz_ > 0 ==> !(r is Done),
 //@at_entry
     proof { broadcast use group_btree_axioms; lemma_block_bounds(self.filesz_ as int, self.blocksz as int, blockoffset as int); }
     let ghost fbytes = self.file_handle.bytes();
@@ -192,23 +194,28 @@ impl BlockReader {
     // ASSUMED (C05, not applicable): the readers of compressed / archived files deliver the same blocks
     #[verifier::external_body]
     fn read_block_FileBz2(&mut self, blockoffset: BlockOffset) -> (r: ResultS3ReadBlock)
-        requires old(self).coherent() ensures final(self).coherent(), final(self).same_file(old(self)), r is Found ==> r->Found_0@ == fblock(old(self).file_handle.bytes(), old(self).blocksz as int, blockoffset as int)
+        requires old(self).coherent() ensures final(self).coherent(), final(self).same_file(old(self)), r is Found ==> r->Found_0@ == fblock(old(self).file_handle.bytes(), old(self).blocksz as int, blockoffset as int),
+            (old(self).filesz_ > 0 && blockoffset as int <= sp_last(old(self).filesz_ as int, old(self).blocksz as int)) ==> !(r is Done)
     { unimplemented!() }
     #[verifier::external_body]
     fn read_block_FileGz(&mut self, blockoffset: BlockOffset) -> (r: ResultS3ReadBlock)
-        requires old(self).coherent() ensures final(self).coherent(), final(self).same_file(old(self)), r is Found ==> r->Found_0@ == fblock(old(self).file_handle.bytes(), old(self).blocksz as int, blockoffset as int)
+        requires old(self).coherent() ensures final(self).coherent(), final(self).same_file(old(self)), r is Found ==> r->Found_0@ == fblock(old(self).file_handle.bytes(), old(self).blocksz as int, blockoffset as int),
+            (old(self).filesz_ > 0 && blockoffset as int <= sp_last(old(self).filesz_ as int, old(self).blocksz as int)) ==> !(r is Done)
     { unimplemented!() }
     #[verifier::external_body]
     fn read_block_FileLz4(&mut self, blockoffset: BlockOffset) -> (r: ResultS3ReadBlock)
-        requires old(self).coherent() ensures final(self).coherent(), final(self).same_file(old(self)), r is Found ==> r->Found_0@ == fblock(old(self).file_handle.bytes(), old(self).blocksz as int, blockoffset as int)
+        requires old(self).coherent() ensures final(self).coherent(), final(self).same_file(old(self)), r is Found ==> r->Found_0@ == fblock(old(self).file_handle.bytes(), old(self).blocksz as int, blockoffset as int),
+            (old(self).filesz_ > 0 && blockoffset as int <= sp_last(old(self).filesz_ as int, old(self).blocksz as int)) ==> !(r is Done)
     { unimplemented!() }
     #[verifier::external_body]
     fn read_block_FileTar(&mut self, blockoffset: BlockOffset) -> (r: ResultS3ReadBlock)
-        requires old(self).coherent() ensures final(self).coherent(), final(self).same_file(old(self)), r is Found ==> r->Found_0@ == fblock(old(self).file_handle.bytes(), old(self).blocksz as int, blockoffset as int)
+        requires old(self).coherent() ensures final(self).coherent(), final(self).same_file(old(self)), r is Found ==> r->Found_0@ == fblock(old(self).file_handle.bytes(), old(self).blocksz as int, blockoffset as int),
+            (old(self).filesz_ > 0 && blockoffset as int <= sp_last(old(self).filesz_ as int, old(self).blocksz as int)) ==> !(r is Done)
     { unimplemented!() }
     #[verifier::external_body]
     fn read_block_FileXz(&mut self, blockoffset: BlockOffset) -> (r: ResultS3ReadBlock)
-        requires old(self).coherent() ensures final(self).coherent(), final(self).same_file(old(self)), r is Found ==> r->Found_0@ == fblock(old(self).file_handle.bytes(), old(self).blocksz as int, blockoffset as int)
+        requires old(self).coherent() ensures final(self).coherent(), final(self).same_file(old(self)), r is Found ==> r->Found_0@ == fblock(old(self).file_handle.bytes(), old(self).blocksz as int, blockoffset as int),
+            (old(self).filesz_ > 0 && blockoffset as int <= sp_last(old(self).filesz_ as int, old(self).blocksz as int)) ==> !(r is Done)
     { unimplemented!() }
 
 //@cut fn path=src/readers/blockreader.rs impl=BlockReader name=read_block ret=r
@@ -227,6 +234,8 @@ impl BlockReader {
         // C12: whichever path serves the request -- LRU cache, block store, or a fresh read -- the block is that block of the file
         r is Found ==> r->Found_0@ == fblock(old(self).file_handle.bytes(), old(self).blocksz as int, blockoffset as int),
         blockoffset as int > sp_last(old(self).filesz_ as int, old(self).blocksz as int) ==> r is Done,
+        // ... and a block of a non-empty file at or before the last one is never answered with Done
+        (old(self).filesz_ > 0 && blockoffset as int <= sp_last(old(self).filesz_ as int, old(self).blocksz as int)) ==> !(r is Done),
 //@at_entry
     proof { broadcast use group_btree_axioms; }
 //@loop 1
